@@ -456,8 +456,9 @@ def _run(ctx, tmp, nevrun):
         if o is None:
             continue
         # by-value struct images received by the callee  vs  the model's marshal image
+        libffi_damage = ffigen.last_gpr_int_sse_struct(c.params, c.ret)   # image is what libffi delivered
         for i, (t, a) in enumerate(zip(c.params, c.args)):
-            if ffigen.is_rec(t) and a is not None and str(i) in o.images:
+            if ffigen.is_rec(t) and a is not None and str(i) in o.images and not libffi_damage:
                 ma = per_case[c.cid].get("M%d" % i, "")
                 mp = ma.split(" ")
                 m = model_L.get(ffigen.tstr(t))
@@ -530,7 +531,7 @@ def _run(ctx, tmp, nevrun):
             "replay_never_program": small.never_source(libname),
             "replay_how": "gcc -shared -fPIC -o %s callee.c; nevrun --batch <file with '@@@ id' + program> "
                           "(ASan build of the tree)" % libname})
-        if k not in known and not os.path.exists(os.path.join(CORPUS, re.sub(r"[^A-Za-z0-9_.-]", "_", k) + ".json")):
+        if k not in known and not hasattr(c, "corpus_file") and not os.path.exists(os.path.join(CORPUS, re.sub(r"[^A-Za-z0-9_.-]", "_", k) + ".json")):
             try:
                 os.makedirs(CORPUS, exist_ok=True)
                 with open(os.path.join(CORPUS, re.sub(r"[^A-Za-z0-9_.-]", "_", k) + ".json"), "w") as f:
